@@ -854,8 +854,11 @@ def _sort_small(dt, xs):
 
 def median(a, axis=None):
   arr, _ = _operand(a)
-  if axis is not None or arr.size > 5:
-    raise Unsupported('median(axis) / more than 5 elements')
+  # bit-precise sorting networks beyond 5 elements are out of reach for the
+  # FP solver; under the term back ends the network is only a term
+  limit = 5 if type(_backend).__name__ == 'Bits' else 16
+  if axis is not None or arr.size > limit:
+    raise Unsupported(f'median(axis) / more than {limit} elements')
   if arr.is_concrete():
     return _real_np.median(arr.to_numpy())
   dt = arr.dtype
